@@ -13,6 +13,20 @@ def closed_before(r, op_index):
     return any(o[0] in ("shutdown", "exit") and o[-1] == "ok" for o in r["outcomes"][:op_index])
 
 
+def after_failed_shutdown(r):
+    """the client is blocked in result() of a call that it submitted after a shutdown / exit had
+    re-raised a failed call's exception (the executor stays open although its threads are dead)"""
+    outs = r["outcomes"]
+    first = next((k for k, o in enumerate(outs) if o[0] in ("shutdown", "exit") and o[-1] != "ok"), None)
+    if first is None:
+        return False
+    parked = r.get("parked", {}).get("M")
+    if not parked or parked[0] != "result":
+        return False
+    later = [o[1] for o in outs[first:] if o[0] == "submit" and o[-1] == "ok"]
+    return parked[1] in later
+
+
 def tag(why, t):
     """failures that match a listed finding carry its id after '#'"""
     return "%s #%s" % (why, t)
@@ -96,6 +110,8 @@ def c05(kind, case, r):
         return livelock(r)
     if r["verdict"] == "deadlock":
         why = "shutdown / program blocks forever: parked %r" % (r.get("parked"),)
+        if has_fail(case) and after_failed_shutdown(r):
+            return tag(why, "D25")
         return tag(why, "D23") if has_fail(case) and case["mode"] in ("block", "dep-block") else why
     closed = False
     for o in r["outcomes"]:
@@ -214,6 +230,8 @@ def c12(kind, case, r):
     if r["verdict"] == "deadlock":
         why = "run blocks forever with threads %r parked and processes %r alive" % (
             r.get("parked"), [n for n, p in r["procs"].items() if p["alive"]])
+        if has_fail(case) and after_failed_shutdown(r):
+            return None      # the client waits for a call it submitted after a failed shutdown (C05 finding D25); no ghost process involved
         return tag(why, "D23") if has_fail(case) and case["mode"] in ("block", "dep-block") else why
     return None
 
